@@ -14,3 +14,6 @@ Lemma poly_write_read_refuted :
   exists (var P : list Z),
     fst (poly_read (elt_read (fun z => z)) (from_chars (poly_write var elt_write P)) 0) <> setdegree P.
 Proof. exists [88], [1; 2]. vm_compute. discriminate. Qed.
+
+Lemma poly_write_read_refuted' : ~ Poly_write_read_stmt.
+Proof. intro H. destruct poly_write_read_refuted as (v & P & HP). apply HP, H. Qed.
